@@ -33,6 +33,9 @@ def config_letters():
         'out_file': b'[snoopy]\noutput = file:log\n', 'out_file2': b'[snoopy]\noutput = file:log2\n', 'out_stdout': b'[snoopy]\noutput = stdout\n', 'out_stderr': b'[snoopy]\noutput = stderr\n',
         'out_sock': b'[snoopy]\noutput = socket:sock\n', 'out_devnull': b'[snoopy]\noutput = devnull\n', 'out_devtty': b'[snoopy]\noutput = devtty\n', 'out_devlog': b'[snoopy]\noutput = devlog\n',
         'out_stdout_emptyarg': b'[snoopy]\noutput = stdout:\n', 'out_devlog_emptyarg': b'[snoopy]\noutput = devlog:\n', 'out_file_emptyarg': b'[snoopy]\noutput = file:\n',
+        # syslog(3) output (a build option; the harness stands in for libc's openlog/syslog/closelog, static state included)
+        'out_syslog': b'[snoopy]\noutput = syslog\n', 'out_syslog_local3': b'[snoopy]\noutput = syslog\nsyslog_facility = LOCAL3\nsyslog_ident = hist\nsyslog_level = ERR\n',
+        'out_syslog_emptyident': b'[snoopy]\noutput = syslog\nsyslog_facility = LOCAL5\nsyslog_ident = ""\n',
         'out_filetpl': b'[snoopy]\noutput = file:lo%{snoopy_literal:g}2\n',
         'errlog': b'[snoopy]\nerror_logging = yes\nlog_message_max_length = 255\nmessage_format = X%{cmdline}\noutput = file:log\n',
         'errlog_only': b'[snoopy]\nerror_logging = yes\n',
@@ -101,7 +104,7 @@ def run(ck):
     closed_all = True
     L = letters(ck.tier)
     for vname, ts in (('ts', True), ('nots', False)):
-        v = H.build_exec_harness('c11-%s-asan' % vname, ts=ts)
+        v = H.build_exec_harness('c11-%s-asan' % vname, ts=ts, syslog_output=True)
         symfile = os.path.join(v['dir'], 'syms.txt')
         H.write_syms(v, v['h_exec'], symfile)
         ex = hist.Explorer(v['h_exec'], symfile, os.path.join(ck.workdir, vname), ['sinks pipe', 'errno -1'], L, warmup=['cfgnone', 'call execve h2f77 [h77] [] -1 2'])
